@@ -21,6 +21,19 @@ CLAIMED = {
     ),
 }
 
+CLAIMED["C02"] = (
+    "bounded exhaustive enumeration of evidence tables (planted allele multisets x 0-2 count deviations) executed on estimate_major, judged against enumeration of all allele multisets",
+    "Every noise-free table planted from every admissible multiset of catalogued majors for every structure of 1-3 (toy: 4) copies, and every table reachable by 1 (thorough: 2) count deviations, over the toy gene and generated databases (and all pairs for six shipped genes, thorough), is solved by aldy and compared with a reference that enumerates every admissible allele multiset and evaluates the documented objective: configuration counts, carried-xor-novel, score, optimality, completeness within the gap, no duplicates, planted combination at error 0.",
+    "Trusted: mc/ref/major_ref.py (filters re-derived from the documentation, closed-form objective) and mc/tables.py. Tables, not alignments (C06/C01 cover the path from reads). States with a count exactly on a filter threshold are skipped and counted.",
+    "DESIGN.md §4 C02",
+)
+CLAIMED["C03"] = (
+    "bounded exhaustive enumeration of region-depth vectors (planted structures x 0-2 additive deviations, fusion-support assignments, user lists) executed on solve_cn_model/estimate_cn, judged against enumeration of all internal structure assignments",
+    "Every depth vector of every planted structure (two complete configurations, 0-3 extra copies, 0-1 extra pseudogene copies, including vectors no admissible structure explains exactly) with 0-1 (thorough 0-2) cell deviations, max copy number 3-6, gap {0,0.1,0.3}, every assignment of long-read support values to the fusions, every user list of length <=3 over the configuration names plus an unknown one, and all shipped genes in the no-copy-number mode, is solved by aldy and compared with a complete enumeration of internal assignments (well-formedness, score of the best explanation, optimality, gap, no repeats, weak completeness, exact reported set).",
+    "Trusted: mc/ref/cn_ref.py. Depth vectors are given directly (normalisation is C07). Tolerance 1e-4, don't-care band at the gap bound.",
+    "DESIGN.md §4 C03",
+)
+
 PENDING_REASON = "check not built yet in this session (design in DESIGN.md §4); not claimed until it runs silently on the unchanged tree"
 NOT_APPLICABLE = {}
 
